@@ -1559,6 +1559,10 @@ def init_state(ctx, which=None):
             got = Closure(f).text(a0, cst, depth=2)
             ok = got in ('trajectory_nominal.iloc[0]',
                          'trajectory_nominal.loc[trajectory_nominal.index[0]]')
+            import re as _re
+            ctx.need(ok or _re.fullmatch(r'(trajectory|trajectory_nominal)\.iloc\[-?\d+\]', got)
+                     is not None, 'feedforward: first argument `%s` of _initialize_covariance not '
+                     'recognised' % got[:60])
         n_ob += 1
         ctx.ob('INIT-STATE', ok, None, '%s: initial covariance mapped at the first state' % M.kind,
                f=f, node=a0, key='%s-p0-state' % M.kind,
@@ -1684,6 +1688,8 @@ def traj_roles(ctx):
             q = M.res(call.func) or ''
             if q.endswith('filters._compute_error_propagation_matrices') and call.args:
                 tb = tables_of(call.args[0], st)
+                ctx.need(tb and tb <= {'trajectory', 'trajectory_nominal'},
+                         'feedforward: state of the propagation matrices not traced to table rows')
                 n_ob += 1
                 ctx.ob('TRAJ-ROLES', tb == {'trajectory_nominal'}, None,
                        'propagation matrices are evaluated on rows of trajectory_nominal', f=f,
@@ -1695,6 +1701,8 @@ def traj_roles(ctx):
             if isinstance(call.func, ast.Attribute) and call.func.attr == 'compute_matrices' and \
                     len(call.args) >= 2:
                 tb = tables_of(call.args[1], st)
+                ctx.need(tb and tb <= {'trajectory', 'trajectory_nominal'},
+                         'feedforward: state predicted for a measurement not traced to table rows')
                 n_ob += 1
                 ctx.ob('TRAJ-ROLES', tb == {'trajectory'}, None,
                        'the state predicted for a measurement comes from the computed trajectory',
